@@ -38,42 +38,29 @@ def run(rep, tier):
     f_m2i = fn(T, "xdis.magics", "magic2int")
     rep.analysed(f_i2m.qualname)
     rep.analysed(f_m2i.qualname)
-    sp = Spec(F)
-    x = Sym("magic_int", "int")
-    out = sp.run(f_i2m, [x])
-    nret = 0
-    for g, l in leaves(out):
-        cond = " and ".join(show(c) for c in g) or "always"
-        if not isinstance(l, Ret):
-            rep.ob("R1", "xdis.magics.int2magic", "path[%s]:returns" % cond, False, derived=type(l).__name__, msg="a path of int2magic does not return a value")
-            continue
-        nret += 1
-        v = l.value
-        # pack(fmt, x, ...) [+ const bytes]
-        total, first_ok, desc = None, False, show(v)
-        parts = [v]
-        if isinstance(v, Op) and v.op == "concat":
-            parts = list(v.args)
-        size = 0
-        ok = True
-        for i, p in enumerate(parts):
-            if isinstance(p, Op) and p.op == "call" and p.args and p.args[0] == "pack":
-                fmt = p.args[1]
-                try:
-                    size += struct.calcsize(fmt)
-                except Exception:
-                    ok = False
-                    continue
-                if i == 0:
-                    first_ok = isinstance(fmt, str) and fmt.startswith("<H") and len(p.args) > 2 and p.args[2] == x
-            elif isinstance(p, (bytes, bytearray)):
-                size += len(p)
-            else:
-                ok = False
-        rep.ob("R1", "xdis.magics.int2magic", "path[%s]:u16le-first" % cond, ok and first_ok, expected="pack('<H...', magic_int, ...)", derived=desc,
-               msg="the returned bytes do not start with magic_int as little-endian u16")
-        rep.ob("R1", "xdis.magics.int2magic", "path[%s]:size4" % cond, ok and size == 4, expected=4, derived=size)
-    rep.ob("R1", "xdis.magics.int2magic", "return-paths", nret >= 1, derived=nret)
+    # int2magic / magic2int decided on values (folded), however the four bytes are put together: every number of the table, the 16-bit boundaries and the
+    # neighbours of the two pre-release numbers that end in 0x99 0x00
+    from ..fold import FoldError as _FE, PyExc as _PE
+    probe = sorted(set(m2v) | {0, 1, 255, 256, 0x7FFF, 0x8000, 0xFFFE, 0xFFFF, 39169, 39170, 39171, 39172})
+    bad_i, bad_m = [], []
+    for n_ in probe:
+        want_b = struct.pack("<H", n_) + (b"\x99\x00" if n_ in (39170, 39171) else b"\r\n")
+        try:
+            got_b = F.apply(f_i2m, [n_], {})
+        except (_PE, _FE) as ex:
+            got_b = "raises %s" % str(ex)[:60]
+        if not (isinstance(got_b, (bytes, bytearray)) and bytes(got_b) == want_b):
+            bad_i.append("%d -> %r (want %r)" % (n_, got_b, want_b))
+        try:
+            got_n = F.apply(f_m2i, [want_b], {})
+        except (_PE, _FE) as ex:
+            got_n = "raises %s" % str(ex)[:60]
+        if got_n != n_:
+            bad_m.append("%r -> %r (want %d)" % (want_b, got_n, n_))
+    rep.ob("R1", "xdis.magics.int2magic", "u16le-then-tail:%d-numbers" % len(probe), not bad_i, expected="struct.pack('<H', n) + CR LF (0x99 0x00 for 39170, 39171)", derived=bad_i[:3] or "equal",
+           msg="int2magic: %s" % "; ".join(bad_i[:2]))
+    rep.ob("R1", "xdis.magics.magic2int", "first-u16le-of-4-bytes:%d-headers" % len(probe), not bad_m, expected="the little-endian u16 in the first two of the four bytes", derived=bad_m[:3] or "equal",
+           msg="magic2int: %s" % "; ".join(bad_m[:2]))
     sp = Spec(F)
     mg = Sym("magic", "bytes", {"n": 4})
     out = sp.run(f_m2i, [mg])
